@@ -1,6 +1,6 @@
 # executed by tools_manifest.py
 PENDING.update({k: 'check not built yet in this commit (claimed in DESIGN.md section 4; will move to checks when its machinery lands)'
-                for k in ['C11', 'C12', 'C17']})
+                for k in ['C11', 'C17']})
 
 check('C09', 'fault_enumeration',
       'For every sampled experiment configuration the complete single-crash space (after every mutating file-system effect x every '
@@ -78,3 +78,12 @@ check('C10', 'exploration',
       'Sampling over algorithms, hyper-parameters, populations and histories; batch seed fixed (seed=None is documented as re-randomising).',
       'deterministic simulation: seeded history machine with retry/branch/restart faults; purity and value-snapshot oracles',
       'DESIGN.md 2.5, 4 (C10)')
+
+check('C12', 'exploration',
+      'Seeded lock-step simulation: the algorithm in its degenerate configuration and real FedAvg (the executable reference model, pinned '
+      'to the definition by C01) run over the same simulated deployment history - same cohorts, arrival orders, dropouts, keys, backend - '
+      'each carrying its own state across 2-5 rounds; server parameters are compared after every round. FedProx(mu>0) and Mime(one step) '
+      'are compared with the NumPy reference round instead (augmented-loss fold / one full-batch gradient step).',
+      'Sampling over pairs, populations, optimizers, hparams and histories; rng-free loss for the APFL and HypCluster pairs; one open known finding (D9).',
+      'deterministic simulation: lock-step refinement of two systems over one seeded deployment history with dropout faults',
+      'DESIGN.md 2.5, 4 (C12)')
